@@ -820,7 +820,37 @@ def build_table(I):
 
     @reg("Try::branch")
     def try_branch(I, st, a, c):
-        raise _i.Unsupported("? operator")
+        # the `?` operator: <Result<T,E> as Try>::branch / <Option<T> as Try>::branch -> ControlFlow<residual, T>
+        v = a[0]
+        if not isinstance(v, Enum) or v.ty not in ("Result", "Option"):
+            raise _i.Unsupported("? operator on %r" % (getattr(v, "ty", type(v).__name__),))
+        okn, ern = ("Ok", "Err") if v.ty == "Result" else ("Some", "None")
+        cond = enum_is(v, okn)
+        acts = []
+        if cond is not False:
+            acts.append((None if cond is True else cond, ("ret", mk_enum("ControlFlow", "Continue", (v.pay[okn][0],)))))
+        if cond is not True:
+            if v.ty == "Result":
+                e = v.pay[ern][0] if v.pay.get(ern) else UNIT
+                resid = mk_enum("Result", "Err", (e,))
+            else:
+                resid = none()
+            acts.append((None if cond is False else bnot(cond), ("ret", mk_enum("ControlFlow", "Break", (resid,)))))
+        return acts
+
+    @reg("FromResidual::from_residual")
+    def from_residual(I, st, a, c):
+        r = a[0]
+        if isinstance(r, FnItem) and re.match(r"^Result::<.*>::Err\(\(\)\)$", r.name.strip()):
+            return [(None, ("ret", mk_enum("Result", "Err", (UNIT,))))]       # the constant `Result::<Infallible, ()>::Err(())`
+        if isinstance(r, FnItem) and re.match(r"^Option::<.*>::None$", r.name.strip()):
+            return [(None, ("ret", none()))]
+        if isinstance(r, Enum) and r.ty == "Result":
+            # Err(From::from(e)): the crate's error types are () / identical on both sides (identity conversion)
+            return [(None, ("ret", mk_enum("Result", "Err", tuple(r.pay.get("Err") or (UNIT,)))))]
+        if isinstance(r, Enum) and r.ty == "Option":
+            return [(None, ("ret", none()))]
+        raise _i.Unsupported("from_residual of %r" % (r,))
 
     # ---------------------------------------------------------------- closures
     def with_cond(cond, acts):
